@@ -13,6 +13,8 @@ EXPLANATION = (
     "the closing flag and the stored identifier otherwise, and the client refuses a non-request identifier with "
     "H3_ID_ERROR before processing. Interleavings beyond what the monotone guard and the single comparison decide are "
     "not decided.")
+# every anchor of these rules lives in the h3 crate: thorough tier repeats them on the feature-less build
+EXTRA_CONFIGS = ["h3-plain"]
 RULES = "C08-a monotone send (A2/A5/A4); C08-b accept/reject line (A5/A3); C08-c announced id is a successor (A4); C08-d client side (A2/A3/A5)"
 
 CI = "h3::connection::ConnectionInner::"
